@@ -1,4 +1,130 @@
 import PgsVerif.Model.AstSem2
+/-!
+# C09 — presence, oneof and syntax semantics agree with protobuf's own
+
+`pgs…` are transcriptions of field.go / oneof.go / proto.go / file.go; `pr…` transcribe
+protobuf-go v1.23.0 (`internal/filedesc`: `HasPresence`, `HasOptionalKeyword`, `IsSynthetic`).
+The theorems hold for every file / message / field satisfying the side conditions protobuf's
+descriptor validation guarantees (`FieldOK`).
+-/
 namespace Pgs.AST
-theorem placeholder_C09 : True := trivial
+
+/-- what descriptor validation guarantees about one field of a message of file `f` -/
+structure FieldOK (f : FileD) (fd : FieldD) : Prop where
+  syn : f.syn = "" ∨ f.syn = "proto2" ∨ f.syn = "proto3"
+  oneofOptional : fd.oneofIndex.isSome = true → fd.label = 1        -- oneof members are `optional`
+  p3optInOneof : fd.proto3Optional = true → fd.oneofIndex.isSome = true ∧ f.syn = "proto3"
+  noGroup : fd.type ≠ 10
+  requiredProto2 : fd.label = 2 → f.syn ≠ "proto3"
+
+/-- the checker evaluated by the driver on every generated world implies the hypothesis -/
+theorem fieldOK_of_check (f : FileD) (fd : FieldD) (h : fieldOKb f fd = true) : FieldOK f fd := by
+  simp only [fieldOKb, Bool.and_eq_true, Bool.or_eq_true, beq_iff_eq, Bool.not_eq_true', bne_iff_ne, ne_eq] at h
+  obtain ⟨⟨⟨⟨h1, h2⟩, h3⟩, h4⟩, h5⟩ := h
+  refine ⟨?_, ?_, ?_, h4, ?_⟩
+  · rcases h1 with (h | h) | h
+    · exact Or.inl h
+    · exact Or.inr (Or.inl h)
+    · exact Or.inr (Or.inr h)
+  · intro ho; rcases h2 with h | h
+    · rw [ho] at h; cases h
+    · exact h
+  · intro hp; rcases h3 with h | h
+    · rw [hp] at h; cases h
+    · exact h
+  · intro hl; rcases h5 with h | h
+    · exact absurd hl h
+    · exact h
+
+theorem syn_facts (f : FileD) (h : f.syn = "" ∨ f.syn = "proto2" ∨ f.syn = "proto3") :
+    (pgsSyntax f == "") = !(f.syn == "proto3") ∧ (pgsSyntax f == "proto3") = (f.syn == "proto3") ∧
+    prProto2 f = !(f.syn == "proto3") := by
+  rcases h with h | h | h <;> simp [pgsSyntax, prProto2, h]
+
+/-- the formula of the property -/
+def specPresence (f : FileD) (fd : FieldD) : Bool :=
+  fd.oneofIndex.isSome || (fd.label != 3 && fd.type == 11) || (fd.label != 3 && !(f.syn == "proto3")) || fd.proto3Optional
+
+/-- **Presence**: pgs = protobuf = "in a oneof, or a singular message, or a singular proto2 field,
+    or proto3-optional". -/
+theorem C09_presence (f : FileD) (fd : FieldD) (ok : FieldOK f fd) :
+    pgsPresence f fd = specPresence f fd ∧ prPresence f fd = specPresence f fd := by
+  obtain ⟨h1, h2, h3⟩ := syn_facts f ok.syn
+  have hg : (fd.type == 10) = false := by simpa using ok.noGroup
+  unfold pgsPresence prPresence specPresence pgsOptKw
+  rw [h1, h2, h3, hg]
+  cases ho : fd.oneofIndex.isSome with
+  | true =>
+    have hl : fd.label = 1 := ok.oneofOptional ho
+    simp [hl]
+  | false =>
+    have hp : fd.proto3Optional = false := by
+      cases hpo : fd.proto3Optional with
+      | false => rfl
+      | true => have := (ok.p3optInOneof hpo).1; rw [ho] at this; cases this
+    cases hl3 : (fd.label != 3) <;> cases ht : (fd.type == 11) <;> cases hs : (f.syn == "proto3") <;> simp [hp]
+
+/-- **Required**: exactly the `required` fields of proto2 files, for pgs and for protobuf. -/
+theorem C09_required (f : FileD) (fd : FieldD) (ok : FieldOK f fd) :
+    pgsRequired f fd = (fd.label == 2) := by
+  obtain ⟨h1, _, _⟩ := syn_facts f ok.syn
+  unfold pgsRequired
+  rw [h1]
+  by_cases hl : fd.label = 2
+  · have := ok.requiredProto2 hl
+    simp [hl, this]
+  · simp [hl]
+
+/-- members of a oneof carry its index -/
+theorem oneofFieldDs_index (h : MsgHead) (o : Nat) (m : FieldD) (hm : m ∈ oneofFieldDs h o) : m.oneofIndex = some o := by
+  simp only [oneofFieldDs, List.mem_filter, beq_iff_eq] at hm
+  exact hm.2
+
+/-- **Synthetic oneofs**: pgs = protobuf = "exists only to carry one proto3-optional field". -/
+theorem C09_synthetic (f : FileD) (h : MsgHead) (o : Nat)
+    (ok : ∀ m ∈ oneofFieldDs h o, FieldOK f m)
+    (hsyn : f.syn = "" ∨ f.syn = "proto2" ∨ f.syn = "proto3") :
+    let spec := match oneofFieldDs h o with | [m] => m.proto3Optional | _ => false
+    pgsSynthetic f h o = spec ∧ prSynthetic f h o = spec := by
+  obtain ⟨_, h2, h3⟩ := syn_facts f hsyn
+  unfold pgsSynthetic prSynthetic prOptKw
+  rw [h2, h3]
+  cases hm : oneofFieldDs h o with
+  | nil => simp
+  | cons m rest =>
+    cases rest with
+    | cons m2 r2 => simp
+    | nil =>
+      have hmem : m ∈ oneofFieldDs h o := by rw [hm]; exact List.mem_cons_self ..
+      have hidx := oneofFieldDs_index h o m hmem
+      have hok := ok m hmem
+      simp only [hidx, Option.isSome_some, Option.isNone_some, Bool.true_and, Bool.and_false, Bool.false_or]
+      cases hp : m.proto3Optional with
+      | false => simp
+      | true =>
+        have := (hok.p3optInOneof hp).2
+        simp [this]
+
+/-- **Real-oneof membership** agrees: a member is in a real oneof iff it is not proto3-optional. -/
+theorem C09_in_real_oneof (f : FileD) (h : MsgHead) (o : Nat) (fd : FieldD)
+    (hsingle : oneofFieldDs h o = [fd]) (ok : FieldOK f fd) :
+    (fd.oneofIndex.isSome && !fd.proto3Optional) = !prSynthetic f h o := by
+  have hidx := oneofFieldDs_index h o fd (by rw [hsingle]; exact List.mem_cons_self ..)
+  obtain ⟨_, _, h3⟩ := syn_facts f ok.syn
+  unfold prSynthetic prOptKw
+  rw [hsingle, h3]
+  simp [hidx]
+
+/-- **Syntax**: a file declared proto2 is treated as proto2 whether its descriptor omits the
+    syntax or spells it out. -/
+theorem C09_proto2_spelling (f g : FileD) (hf : f.syn = "") (hg : g.syn = "proto2") :
+    pgsSyntax f = pgsSyntax g ∧ pgsSyntax f = "" := by
+  simp [pgsSyntax, hf, hg]
+
+/-! ### non-vacuity -/
+private def demoFile : FileD := ⟨"a.proto", "p", "proto3", [], [], [], .nil, [], [], [], ""⟩
+private def demoField : FieldD := ⟨"x", 1, 1, 9, "", some 0, true, ""⟩
+example : FieldOK demoFile demoField := ⟨by decide, by decide, by decide, by decide, by decide⟩
+example : pgsPresence demoFile demoField = true := by decide
+
 end Pgs.AST
